@@ -74,6 +74,24 @@ theorem C10_only_backoff_rearms (waitExit ignore : Bool) (v : Info) :
   cases v.state <;> simp <;> split <;> simp
 
 
+/-! ## A job is not complete while one of its sequence groups is being processed
+
+`ApplicationJobs.next` processes the commands of a group one by one; a command that cannot be performed (no resource) forces a
+FATAL event that re-enters `Commander.next` from inside that loop.  Repaired defect `C10:start-request-untracked` (and
+`C03:stop-strategy-dropped-with-job`): the job, whose planned and current lists may both be empty at that instant, used to be
+declared complete and dropped although the loop went on sending the requests of the remaining commands - requests nobody
+followed any more.  `processing_group` now keeps it in progress. -/
+
+/-- whatever its lists, a job whose group is being processed is in progress: `Commander.next` (`starterNext`: only jobs that
+    are not in progress are removed and handed to `after`) cannot drop it -/
+theorem C10_processing_job_in_progress (j : AppJobs) (h : j.processing = true) : jobInProgress j = true := by
+  simp [jobInProgress, h]
+
+/-- and outside that window nothing changed: in progress iff something is planned or pending -/
+theorem C10_in_progress_outside_processing (j : AppJobs) (h : j.processing = false) :
+    jobInProgress j = (!j.planned.isEmpty || !j.current.isEmpty) := by
+  simp [jobInProgress, h]
+
 /-! ## The target instance is lost
 
 The time-outs above are counted in the ticks of the TARGET: a request that targets an instance which is not seen RUNNING any more
